@@ -35,7 +35,24 @@ def pow2ceil(n):
 
 
 contracts = []
+BATCH = 120
+
+
+def flush_static(d, cfg, tier, facts):
+    """facts: [(clause name, C++ expression of type convertible to uint64_t, expected value, description)]"""
+    for k in range(0, len(facts), BATCH):
+        ch = facts[k:k + BATCH]
+        name = 'c16_static_facts_%d' % (k // BATCH)
+        body = ' '.join('{ %s out[%d] = (uint64_t)(%s); }' % (pre, i, ex) for i, (nm, pre, ex, val, desc) in enumerate(ch))
+        d.shim(name, 'void', [], body, outs=[('uint64_t', 'out', len(ch))])
+        contracts.append((name, 'compiler-evaluated layout facts of the real GLM types [%s]: %s ... %s' % (cfg, ch[0][4], ch[-1][4]),
+                          dict(build=cfg, tier=tier, ensures=[(nm, 'out[%d] == %d' % (i, val)) for i, (nm, pre, ex, val, desc) in enumerate(ch)])))
+
+
 for cfg, cdef in CONFIGS.items():
+    FACTS = []
+    IDX = {}
+    MIDX = {}
     d = P.driver('c16_' + cfg, INCL + (['<glm/gtc/type_aligned.hpp>'] if cfg in ALIGNED_CFG else []))
     P.build(d, 'flat', defines=cdef['defines'] + ['GLM_ENABLE_EXPERIMENTAL'], flags=cdef['flags'], tag=cfg)
     quick = cfg in ('default', 'swizzle', 'default_aligned', 'intrinsics_sse2', 'quat_wxyz', 'size_t_length')
@@ -49,24 +66,12 @@ for cfg, cdef in CONFIGS.items():
             for Q in packedQ if tag in ('f32', 'i32') else packedQ[:1]:
                 V = 'glm::vec<%d, %s, %s>' % (L, T, Q)
                 nm = 'vec%d_%s_%s' % (L, tag, Q.split('_')[1])
-                d.shim('c16_sizeof_' + nm, 'uint64_t', [], 'return sizeof(%s);' % V)
-                contracts.append(('c16_sizeof_' + nm, 'glm/detail/type_vec%d.hpp  sizeof(vec<%d,%s,%s>) [%s]' % (L, L, T, Q, cfg),
-                                  dict(build=cfg, tier=tier, ensures=[('is_L_times_sizeof_T', 'RESULT == %d' % (L * SIZES[tag]))])))
-                d.shim('c16_index_offset_' + nm, 'uint64_t', [('uint32_t', 'i')],
-                       '%s v = %s(); return (uint64_t)((const char*)&v[(int)i] - (const char*)&v);' % (V, V))
-                contracts.append(('c16_index_offset_' + nm, 'glm/detail/type_vec%d.inl  &v[i] for vec<%d,%s,%s> [%s]' % (L, L, T, Q, cfg),
-                                  dict(build=cfg, tier=tier, requires=[('index_in_range', 'i < %d' % L)],
-                                       ensures=[('contiguous', 'RESULT == (u64)i * %d' % SIZES[tag])])))
-                body = 'typedef %s VT; ' % V + ' '.join('out[%d] = (uint64_t)offsetof(VT, %s);' % (i, 'xyzw'[i]) for i in range(L))
-                d.shim('c16_member_offsets_' + nm, 'void', [], body, outs=[('uint64_t', 'out', L)])
-                contracts.append(('c16_member_offsets_' + nm, 'glm/detail/type_vec%d.hpp  offsets of x,y,z,w in vec<%d,%s,%s> [%s]' % (L, L, T, Q, cfg),
-                                  dict(build=cfg, tier=tier, ensures=[('member_%s' % 'xyzw'[i], 'out[%d] == %d' % (i, i * SIZES[tag])) for i in range(L)])))
-                d.shim('c16_length_' + nm, 'uint64_t', [], 'return (uint64_t)%s::length();' % V)
-                d.shim('c16_length_type_width_' + nm, 'uint64_t', [], 'return sizeof(decltype(%s::length()));' % V)
-                contracts.append(('c16_length_' + nm, 'glm/detail/type_vec%d.hpp  vec<%d,%s>::length() [%s]' % (L, L, T, cfg),
-                                  dict(build=cfg, tier=tier, ensures=[('component_count', 'RESULT == %d' % L)])))
-                contracts.append(('c16_length_type_width_' + nm, 'glm/detail/setup.hpp  length_t [%s]' % cfg,
-                                  dict(build=cfg, tier=tier, ensures=[('configured_length_type', 'RESULT == %d' % (8 if cfg == 'size_t_length' else 4))])))
+                FACTS.append(('sizeof_%s_is_L_times_sizeof_T' % nm, '', 'sizeof(%s)' % V, L * SIZES[tag], 'sizeof(vec<%d,%s,%s>)' % (L, T, Q)))
+                IDX.setdefault(L, []).append((nm, V, SIZES[tag]))
+                for i in range(L):
+                    FACTS.append(('offset_of_%s_in_%s' % ('xyzw'[i], nm), 'typedef %s VT;' % V, 'offsetof(VT, %s)' % 'xyzw'[i], i * SIZES[tag], 'offsetof(vec<%d,%s,%s>, %s)' % (L, T, Q, 'xyzw'[i])))
+                FACTS.append(('length_of_%s_is_component_count' % nm, '', '%s::length()' % V, L, 'vec<%d,%s>::length()' % (L, T)))
+                FACTS.append(('length_type_width_%s' % nm, '', 'sizeof(decltype(%s::length()))' % V, 8 if cfg == 'size_t_length' else 4, 'sizeof(length_t)'))
     # ---------------- packed matrices: C*R contiguous T, column-major; value_ptr(m)[c*R+r] is m[c][r]
     for tag in ('f32', 'f64', 'i32'):
         T = cppT(tag)
@@ -74,14 +79,8 @@ for cfg, cdef in CONFIGS.items():
             for Rn in (2, 3, 4):
                 M = 'glm::mat<%d, %d, %s, glm::packed_highp>' % (Cn, Rn, T)
                 nm = 'mat%dx%d_%s' % (Cn, Rn, tag)
-                d.shim('c16_sizeof_' + nm, 'uint64_t', [], 'return sizeof(%s);' % M)
-                contracts.append(('c16_sizeof_' + nm, 'glm/detail/type_mat%dx%d.hpp  sizeof(packed mat%dx%d<%s>) [%s]' % (Cn, Rn, Cn, Rn, T, cfg),
-                                  dict(build=cfg, tier=tier, ensures=[('is_C_R_sizeof_T', 'RESULT == %d' % (Cn * Rn * SIZES[tag]))])))
-                d.shim('c16_elem_offset_' + nm, 'uint64_t', [('uint32_t', 'c'), ('uint32_t', 'r')],
-                       '%s m = %s(); return (uint64_t)((const char*)&m[(int)c][(int)r] - (const char*)glm::value_ptr(m));' % (M, M))
-                contracts.append(('c16_elem_offset_' + nm, 'glm/gtc/type_ptr.inl value_ptr + glm/detail/type_mat%dx%d.inl operator[] [%s]' % (Cn, Rn, cfg),
-                                  dict(build=cfg, tier=tier, requires=[('indices_in_range', 'c < %d && r < %d' % (Cn, Rn))],
-                                       ensures=[('column_major_contiguous', 'RESULT == ((u64)c * %d + (u64)r) * %d' % (Rn, SIZES[tag]))])))
+                FACTS.append(('sizeof_%s_is_C_R_sizeof_T' % nm, '', 'sizeof(%s)' % M, Cn * Rn * SIZES[tag], 'sizeof(packed mat%dx%d<%s>)' % (Cn, Rn, T)))
+                MIDX.setdefault((Cn, Rn), []).append((nm, M, SIZES[tag]))
     # ---------------- value_ptr / make_* round trips through a raw array (bit-exact)
     for tag in ('f32', 'i32', 'f64'):
         T = cppT(tag)
@@ -136,28 +135,38 @@ for cfg, cdef in CONFIGS.items():
                 nm = 'aligned_vec%d_%s' % (L, tag)
                 # documented: an aligned vecL<T> occupies and is aligned to the next power of two of L*sizeof(T) (vec3 is padded like vec4)
                 exp_size = pow2ceil(L * SIZES[tag])
-                d.shim('c16_sizeof_' + nm, 'uint64_t', [], 'return sizeof(%s);' % V)
-                d.shim('c16_alignof_' + nm, 'uint64_t', [], 'return alignof(%s);' % V)
-                contracts.append(('c16_sizeof_' + nm, 'glm/detail/qualifier.hpp storage<%d,%s,true>  sizeof(aligned vec) [%s]' % (L, T, cfg),
-                                  dict(build=cfg, tier=tier, ensures=[('documented_size', 'RESULT == %d' % exp_size)])))
+                FACTS.append(('sizeof_%s_documented' % nm, '', 'sizeof(%s)' % V, exp_size, 'sizeof(aligned vec<%d,%s>)' % (L, T)))
                 # double vec3/vec4 are two 16-byte halves below AVX (alignment 16), one __m256d with AVX (alignment 32);
                 # the property statement documents the float cases only
                 exp_align = exp_size if not (tag == 'f64' and L >= 3 and cfg != 'intrinsics_avx2') else 16
-                contracts.append(('c16_alignof_' + nm, 'glm/detail/qualifier.hpp storage<%d,%s,true>  alignof(aligned vec) [%s]' % (L, T, cfg),
-                                  dict(build=cfg, tier=tier, ensures=[('documented_alignment', 'RESULT == %d' % exp_align)])))
-                body = 'typedef %s VT; ' % V + ' '.join('out[%d] = (uint64_t)offsetof(VT, %s);' % (i, 'xyzw'[i]) for i in range(L))
-                d.shim('c16_member_offsets_' + nm, 'void', [], body, outs=[('uint64_t', 'out', L)])
-                contracts.append(('c16_member_offsets_' + nm, 'glm/detail/type_vec%d.hpp  element order of aligned vec<%d,%s> [%s]' % (L, L, T, cfg),
-                                  dict(build=cfg, tier=tier, ensures=[('member_%s' % 'xyzw'[i], 'out[%d] == %d' % (i, i * SIZES[tag])) for i in range(L)])))
+                FACTS.append(('alignof_%s_documented' % nm, '', 'alignof(%s)' % V, exp_align, 'alignof(aligned vec<%d,%s>)' % (L, T)))
+                for i in range(L):
+                    FACTS.append(('offset_of_%s_in_%s' % ('xyzw'[i], nm), 'typedef %s VT;' % V, 'offsetof(VT, %s)' % 'xyzw'[i], i * SIZES[tag], 'offsetof(aligned vec<%d,%s>, %s)' % (L, T, 'xyzw'[i])))
         for (Cn, Rn) in ((2, 2), (3, 3), (4, 4), (4, 3), (2, 4)):
             M = 'glm::mat<%d, %d, float, glm::aligned_highp>' % (Cn, Rn)
             nm = 'aligned_mat%dx%d_f32' % (Cn, Rn)
-            d.shim('c16_sizeof_' + nm, 'uint64_t', [], 'return sizeof(%s);' % M)
-            contracts.append(('c16_sizeof_' + nm, 'glm/detail/type_mat%dx%d.hpp  aligned matrix = C consecutive aligned columns [%s]' % (Cn, Rn, cfg),
-                              dict(build=cfg, tier=tier, ensures=[('C_aligned_columns', 'RESULT == %d' % (Cn * pow2ceil(Rn * 4)))])))
+            FACTS.append(('sizeof_%s_is_C_aligned_columns' % nm, '', 'sizeof(%s)' % M, Cn * pow2ceil(Rn * 4), 'sizeof(aligned mat%dx%d<float>)' % (Cn, Rn)))
+
+    flush_static(d, cfg, tier, FACTS)
+    # &v[i] for a SYMBOLIC in-range index i, all element types and qualifiers of one length in one shim
+    for L, lst in IDX.items():
+        name = 'c16_index_offsets_vec%d' % L
+        d.shim(name, 'void', [('uint32_t', 'i')], ' '.join('{ %s v = %s(); out[%d] = (uint64_t)((const char*)&v[(int)i] - (const char*)&v); }' % (V, V, k)
+                                                           for k, (nm, V, sz) in enumerate(lst)), outs=[('uint64_t', 'out', len(lst))])
+        contracts.append((name, 'glm/detail/type_vec%d.inl  &v[i] == (T*)&v + i for every packed vec%d instantiation [%s]' % (L, L, cfg),
+                          dict(build=cfg, tier=tier, requires=[('index_in_range', 'i < %d' % L)],
+                               ensures=[('contiguous_%s' % nm, 'out[%d] == (u64)i * %d' % (k, sz)) for k, (nm, V, sz) in enumerate(lst)])))
+    for (Cn, Rn), lst in MIDX.items():
+        name = 'c16_elem_offsets_mat%dx%d' % (Cn, Rn)
+        d.shim(name, 'void', [('uint32_t', 'c'), ('uint32_t', 'r')],
+               ' '.join('{ %s m = %s(); out[%d] = (uint64_t)((const char*)&m[(int)c][(int)r] - (const char*)glm::value_ptr(m)); }' % (M, M, k)
+                        for k, (nm, M, sz) in enumerate(lst)), outs=[('uint64_t', 'out', len(lst))])
+        contracts.append((name, 'glm/gtc/type_ptr.inl value_ptr + glm/detail/type_mat%dx%d.inl operator[]: value_ptr(m)[c*R+r] is m[c][r] [%s]' % (Cn, Rn, cfg),
+                          dict(build=cfg, tier=tier, requires=[('indices_in_range', 'c < %d && r < %d' % (Cn, Rn))],
+                               ensures=[('column_major_contiguous_%s' % nm, 'out[%d] == ((u64)c * %d + (u64)r) * %d' % (k, Rn, sz)) for k, (nm, M, sz) in enumerate(lst)])))
 
 for fn, real, kw in contracts:
-    P.contract(fn, real, unwind=2, timeout=120, **kw)
+    P.contract(fn, real, unwind=2, timeout=300, **kw)
 
 P.level_text = ('proof of static facts: for every generated instantiation x configuration the sizeof/alignof/offset values the compiler computes '
                 'for the real GLM types equal the documented layout, &v[i] and &m[c][r] are proved to lie at the documented byte offset for every '
